@@ -421,15 +421,19 @@ def stage(ctx, gendir, fn, what):
     p = PROPS[fn]
     if not os.path.exists(os.path.join(vlib.COQ, p)):
         return ok and compiled
+    # the theorems are stated inside a Section (indented); `Print Assumptions` for each follows the section
+    import re
+    names = re.findall(r"^\s*(?:Theorem|Corollary)\s+([A-Za-z0-9_']+)", open(os.path.join(vlib.COQ, p)).read(), re.M)
     if ok and compiled:
-        okp, outp = ctx.compile_theorems(p)
+        okp, outp = ctx.compile_theorems(p, theorems=names)
         if not okp and transient(outp):
             ctx.obligations = [o for o in ctx.obligations if not (o["kind"] == "theorem" and ("(%s)" % p) in o["name"])]
             ctx.ensure_static()
             ctx.coqc(os.path.join(gendir, fn))
-            ctx.compile_theorems(p)
+            ctx.compile_theorems(p, theorems=names)
     else:
-        ctx.obligation("theorems of %s (regenerated %s = hand model)" % (p, what), "theorem", False, "generated definitions unavailable")
+        for n in names:
+            ctx.obligation("theorem %s (%s)" % (n, p), "theorem", False, "generated definitions unavailable (translator failed closed or Gen/%s does not type-check)" % fn)
     return ok and compiled
 
 
